@@ -186,7 +186,7 @@ class C07(Check):
         self._oracle_bad = []
         self._oracle_n = 0
         self._hist = {"platforms": {}, "rows": {}, "nan_div": 0, "nan_dist": 0, "report_cases": 0,
-                      "summary_skipped_total0": 0, "clustering_run": 0, "malformed": 0, "big_counts": 0}
+                      "clustering_run": 0, "malformed": 0, "big_counts": 0}
         logging.disable(logging.CRITICAL)
 
     # ------------------------------------------------------------ generation
@@ -278,6 +278,7 @@ class C07(Check):
             pool = names + ["Zabsent"]
             prs = [[rng.choice(pool), rng.choice(pool)] for _ in range(5)]
             out.append([rows, args, prs, 2])
+        self._generated = out
         return out
 
     # ------------------------------------------------------------ encoding
@@ -325,20 +326,15 @@ class C07(Check):
 
     def _report(self, report, setmap, rows):
         rep = {}
-        total = sum(c for (_, c) in rows)
-        if total == 0 and rows:
-            # summary() divides by the total for its '% LOC' column (outside C07); counted
-            rep["summary"] = "skipped-total-0"
-        else:
-            s = io.StringIO()
-            try:
-                report.summary(setmap, s)
-                for line in s.getvalue().splitlines():
-                    for key, tag in (("Code Divergence: ", "div"), ("Coverage (%): ", "cov"), ("Avg. Coverage (%): ", "avg")):
-                        if line.startswith(key):
-                            rep[tag] = line[len(key):].strip()
-            except Exception as e:  # noqa
-                rep["summary"] = ["Err", type(e).__name__]
+        s = io.StringIO()
+        try:
+            report.summary(setmap, s)
+            for line in s.getvalue().splitlines():
+                for key, tag in (("Code Divergence: ", "div"), ("Coverage (%): ", "cov"), ("Avg. Coverage (%): ", "avg")):
+                    if line.startswith(key):
+                        rep[tag] = line[len(key):].strip()
+        except Exception as e:  # noqa
+            rep["summary"] = ["Err", type(e).__name__]
         plats = table_platforms(rows)
         if len(plats) >= 2:
             s = io.StringIO()
@@ -384,14 +380,7 @@ class C07(Check):
             return ref
         ref = dict(ref)
         plats = table_platforms(rows)
-        total = sum(c for (_, c) in rows)
-        rep = {}
-        if total == 0 and rows:
-            rep["summary"] = "skipped-total-0"
-        else:
-            rep["div"] = ref["div"]
-            rep["cov"] = ref["cov"][args.index(None)]
-            rep["avg"] = ref["avg"][args.index(None)]
+        rep = {"div": ref["div"], "cov": ref["cov"][args.index(None)], "avg": ref["avg"][args.index(None)]}
         if len(plats) >= 2:
             look = {(p, q): d for (p, q), d in zip(map(tuple, prs), ref["dist"])}
             m = [[look.get((p, q), "missing") for q in plats] for p in plats]
@@ -462,6 +451,18 @@ class C07(Check):
 
     def nontrivial(self, case, ia):
         rows = case[0]
+        h = self._hist
+        if ia.get("div") == "NaN":
+            h["nan_div"] += 1
+        h["nan_dist"] += sum(1 for d in ia.get("dist", []) if d == "NaN")
+        h["nan_cov"] = h.get("nan_cov", 0) + sum(1 for d in ia.get("cov", []) if d == "NaN")
+        h["nan_avg"] = h.get("nan_avg", 0) + sum(1 for d in ia.get("avg", []) if d == "NaN")
+        h["values_compared"] = h.get("values_compared", 0) + len(ia.get("cov", [])) + len(ia.get("avg", [])) \
+            + len(ia.get("dist", [])) + 1
+        if "report" in ia:
+            h["report_cases"] += 1
+            if isinstance(ia["report"].get("matrix"), list) and ia["report"]["matrix"][:1] != ["Err"]:
+                h["clustering_run"] += 1
         if len(table_platforms(rows)) < 2 or sum(c for (_, c) in rows) <= 0:
             return False
         for d in ia["dist"]:
@@ -518,8 +519,29 @@ class C07(Check):
             out.append("printed-number canonicaliser self-test failed")
         return out
 
+    def _distribution(self):
+        h = self._hist
+        for case in getattr(self, "_generated", []):
+            rows, args, prs, mode = case
+            np_ = len(table_platforms(rows))
+            h["platforms"][str(np_)] = h["platforms"].get(str(np_), 0) + 1
+            b = len(rows) if len(rows) <= 8 else ("9-16" if len(rows) <= 16 else "17-24")
+            h["rows"][str(b)] = h["rows"].get(str(b), 0) + 1
+            if any(c < 0 for (_, c) in rows):
+                h["malformed"] += 1
+            if any(c >= 10 ** 9 for (_, c) in rows):
+                h["big_counts"] += 1
+            if any(c == 0 for (_, c) in rows):
+                h["zero_count_row"] = h.get("zero_count_row", 0) + 1
+            if any(len(s_) == 0 for (s_, _) in rows):
+                h["empty_set_row"] = h.get("empty_set_row", 0) + 1
+            if mode & 2:
+                h["list_argument"] = h.get("list_argument", 0) + 1
+        return h
+
     def extra_coverage(self):
-        return {"exhaustive": {"bound": "tables over <= 3 platforms, counts in {0,1,2,5}" +
+        return {"input_distribution": self._distribution(),
+                "exhaustive": {"bound": "tables over <= 3 platforms, counts in {0,1,2,5}" +
                                (" (seed-rotated quarter in the quick tier)" if self.tier == "quick" else " (all 65536)") +
                                "; all 625 tables over <= 2 platforms with absent rows; every platforms argument"},
                 "spec_oracle_cases": self._oracle_n,
